@@ -35,7 +35,9 @@ type Case struct {
 	ShotMs      []int   `json:"response_ms"` // cyclic per gun
 	// Dense: several thousand tokens per second for a fraction of a second and responses of 0-900 us, so that an
 	// instance keeps arriving at its next token less than a millisecond ahead of time (ShotUs replaces ShotMs)
-	Gap    bool  `json:"gap,omitempty"` // see genGap
+	Gap    bool  `json:"gap,omitempty"`            // see genGap
+	Long   bool  `json:"long_wait,omitempty"`      // see genLongWait
+	UnlTl  bool  `json:"unlimited_tail,omitempty"` // see genUnlimited
 	Dense  bool  `json:"dense,omitempty"`
 	ShotUs []int `json:"response_us,omitempty"`
 }
@@ -96,6 +98,96 @@ func genGap(t *rapid.T) Case {
 	return c
 }
 
+// genUnlimited: profiles whose number of requests is not known in advance: 1-3 limited sections (steady, ramp, burst
+// or pause) followed by an `unlimited` one (as fast as the target answers, for 80-300 ms), one case in three with
+// another limited section behind it. Responses of 2-60 ms (one case in five has a 700 ms one among them), so that
+// between the requests of a limited section an instance is back long before the next request is due, asking the
+// schedule whether anything is left - what the instance loop does after every request.
+func genUnlimited(t *rapid.T) Case {
+	c := Case{UnlTl: true}
+	c.Instances = rapid.IntRange(1, 3).Draw(t, "instances")
+	c.PerInstance = rapid.IntRange(0, 3).Draw(t, "perInstance") == 0
+	c.Discard = rapid.IntRange(0, 3).Draw(t, "discard") != 0
+	limited := func(label string) sg.Node {
+		d := int64(rapid.IntRange(400, 1500).Draw(t, label+"durMs")) * int64(time.Millisecond)
+		n := rapid.IntRange(1, 8).Draw(t, label+"tok")
+		rate := (float64(n) + 0.25) / (float64(d) / 1e9)
+		switch rapid.IntRange(0, 5).Draw(t, label+"kind") {
+		case 0:
+			return sg.Node{Kind: "once", N: int64(rapid.IntRange(1, 4).Draw(t, label+"once"))}
+		case 1:
+			return sg.Node{Kind: "line", From: rate * 0.5, To: rate * 1.5, DurNs: d}
+		case 2:
+			return sg.Node{Kind: "const", From: 0, DurNs: d}
+		default:
+			return sg.Node{Kind: "const", From: rate, DurNs: d}
+		}
+	}
+	var ch []sg.Node
+	for i, n := 0, rapid.IntRange(1, 3).Draw(t, "limitedBefore"); i < n; i++ {
+		ch = append(ch, limited(fmt.Sprintf("pre%d", i)))
+	}
+	ch = append(ch, sg.Node{Kind: "unlimited", DurNs: int64(rapid.IntRange(80, 300).Draw(t, "unlimitedMs")) * int64(time.Millisecond)})
+	if rapid.IntRange(0, 2).Draw(t, "limitedAfter") == 0 {
+		ch = append(ch, limited("post"))
+	}
+	c.Profile = sg.Node{Kind: "composite", Children: ch}
+	c.ShotMs = rapid.SliceOfN(rapid.SampledFrom([]int{2, 5, 20, 60}), 1, 3).Draw(t, "responses")
+	if rapid.IntRange(0, 4).Draw(t, "oneSlow") == 0 {
+		c.ShotMs = append(c.ShotMs, 700)
+	}
+	return c
+}
+
+// genLongWait: one instance has to wait 4 s - maxGapMs for a single request: two steps separated by a pause, a steady
+// rate of one request per 4 s and slower, or the start of a ramp from zero; 1-3 instances (idle instances of a
+// shared schedule take tokens that lie several intervals ahead), fast responses.
+func genLongWait(maxGapMs int) func(t *rapid.T) Case {
+	return func(t *rapid.T) Case {
+		c := Case{Long: true}
+		c.Instances = rapid.IntRange(1, 3).Draw(t, "instances")
+		c.PerInstance = c.Instances > 1 && rapid.Bool().Draw(t, "perInstance")
+		c.Discard = rapid.Bool().Draw(t, "discard")
+		// (rapid's integer ranges favour their low end: draw the band first, the long ones first)
+		bands := [][2]int{}
+		for lo, his := 5000, []int{7000, 10000, 15000, 26000}; len(his) > 0 && lo < maxGapMs; lo, his = his[0], his[1:] {
+			bands = append(bands, [2]int{lo, min(his[0], maxGapMs)})
+		}
+		bands = append(bands, [2]int{4000, 5000})
+		band := rapid.SampledFrom(bands).Draw(t, "gapBand")
+		gapMs := rapid.IntRange(band[0]+1, band[1]).Draw(t, "gapMs")
+		gap := int64(gapMs) * int64(time.Millisecond)
+		small := func(label string) sg.Node {
+			d := int64(rapid.IntRange(300, 1000).Draw(t, label+"durMs")) * int64(time.Millisecond)
+			n := rapid.IntRange(1, 3).Draw(t, label+"tok")
+			rate := (float64(n) + 0.25) / (float64(d) / 1e9)
+			switch rapid.IntRange(0, 2).Draw(t, label+"kind") {
+			case 0:
+				return sg.Node{Kind: "once", N: int64(n)}
+			case 1:
+				return sg.Node{Kind: "line", From: rate * 0.5, To: rate * 1.5, DurNs: d}
+			default:
+				return sg.Node{Kind: "const", From: rate, DurNs: d}
+			}
+		}
+		switch rapid.IntRange(0, 3).Draw(t, "shape") {
+		case 0, 1: // steps separated by a pause (what instance_step-like load profiles look like)
+			c.Profile = sg.Node{Kind: "composite", Children: []sg.Node{small("a"), {Kind: "const", From: 0, DurNs: gap}, small("b")}}
+		case 2: // low steady rate: requests at 0, gap, (2 gap)
+			n := 2
+			if 2*gapMs <= maxGapMs*12/10 {
+				n = rapid.IntRange(2, 3).Draw(t, "lowRateTokens")
+			}
+			c.Profile = sg.Node{Kind: "const", From: 1e9 / float64(gap), DurNs: int64(n)*gap + gap/4}
+		default: // ramp from zero: a*x*x/2 requests after x seconds, a = 2/gap^2: requests at 0 and gap, 2.25 by the end
+			c.Profile = sg.Node{Kind: "composite", Children: []sg.Node{
+				{Kind: "line", From: 0, To: 3e9 / float64(gap), DurNs: gap + gap/2}, small("b")}}
+		}
+		c.ShotMs = rapid.SliceOfN(rapid.SampledFrom([]int{0, 20, 200}), 1, 3).Draw(t, "responses")
+		return c
+	}
+}
+
 func genCase(t *rapid.T) Case {
 	if rapid.IntRange(0, 4).Draw(t, "gapShape") == 0 {
 		return genGap(t)
@@ -120,15 +212,75 @@ type ev struct {
 	at   time.Time
 	kind string // next | shot | discard
 	nx   fake.NextRec
+	// the time the PROFILE schedules this request (a lower bound of it), see profRef
+	prof    time.Time
+	hasProf bool
+	rank    int
+	start   time.Time // lower bound of the instant the schedule object was started
+}
+
+// profRef is the timetable the load profile itself defines (docs/eng/load-profile.md: the sections of an `rps` list
+// follow each other, a section lasts its `duration`), as offsets from the instant the schedule is started: each
+// limited section drained alone from the finish of the section before it (schedgen.Chain). The tokens a schedule
+// object hands out are ranked by their time; request k of the profile is the token of rank k.
+//   - ranks below the token count of the sections before the first unknown-length (unlimited) section: exact offset;
+//   - the last ranks, as many as the sections after the last unlimited section hold: exact offset, counted from the
+//     end (a run that ended by itself has handed out every token);
+//   - anything else (tokens of an unlimited section, of limited sections between two unlimited ones): not before the
+//     start of the first unlimited section.
+type profRef struct {
+	front, back []time.Duration
+	hasUnl      bool
+	unlStart    time.Duration
+}
+
+func newProfRef(parts []sg.Part, r0 time.Time) profRef {
+	pr := profRef{}
+	firstUnl, lastUnl := len(parts), -1
+	for i, p := range parts {
+		if p.Leaf.Unknown() {
+			if !pr.hasUnl {
+				pr.hasUnl, pr.unlStart, firstUnl = true, p.Start.Sub(r0), i
+			}
+			lastUnl = i
+		}
+	}
+	for i, p := range parts {
+		for _, tx := range p.Tokens {
+			switch {
+			case i < firstUnl:
+				pr.front = append(pr.front, tx.Sub(r0))
+			case i > lastUnl:
+				pr.back = append(pr.back, tx.Sub(r0))
+			}
+		}
+	}
+	return pr
+}
+
+// at: offset of the request of rank k out of n handed out by one schedule object.
+func (pr profRef) at(k, n int) (time.Duration, bool) {
+	if k < len(pr.front) {
+		return pr.front[k], true
+	}
+	if !pr.hasUnl {
+		return 0, false // more tokens than the profile holds: reported by the count check
+	}
+	if j := k - (n - len(pr.back)); j >= 0 && n >= len(pr.front)+len(pr.back) {
+		return pr.back[j], true
+	}
+	return pr.unlStart, true
 }
 
 func check(c Case, o *vf.Obs) error {
 	leaves := sg.Flatten(c.Profile)
-	_, fin, T, err := sg.Chain(leaves, time.Unix(1, 0))
+	r0 := time.Unix(1, 0)
+	parts, fin, T, err := sg.Chain(leaves, r0)
 	if err != nil {
 		return err
 	}
-	profDur := fin.Sub(time.Unix(1, 0))
+	pr := newProfRef(parts, r0)
+	profDur := fin.Sub(r0)
 	shotUs := make([]int, len(c.ShotMs))
 	maxResp := time.Duration(0)
 	for i, ms := range c.ShotMs {
@@ -172,15 +324,36 @@ func check(c Case, o *vf.Obs) error {
 	if c.Discard {
 		bound = profDur + window + maxResp + 3*time.Second
 	} else {
-		bound = profDur + time.Duration(tokens)*maxResp + 5*time.Second
+		bound = profDur + time.Duration(tokens+1)*maxResp + 5*time.Second
+	}
+	// discard off: the bound only guards against a run that never ends ("every token is eventually fired"). It is
+	// made of the fake guns' response times, which are sleeps: on a machine so busy that this process's own 2 ms
+	// sleeps are measurably late the responses are late as well, and the run gets five times the bound more.
+	var probe *vf.LoadProbe
+	if !c.Discard {
+		probe = vf.StartLoadProbe()
 	}
 	t0 := time.Now()
 	var runErr error
 	done := make(chan struct{})
 	go func() { runErr = eng.Run(ctx); close(done) }()
+	expired := false
 	select {
 	case <-done:
 	case <-time.After(bound):
+		expired = true
+	}
+	if probe != nil {
+		if late := probe.Stop(); expired && late > 5*time.Millisecond {
+			select {
+			case <-done:
+				expired = false
+				o.Class("discard_off_run_bound_extended_under_machine_load")
+			case <-time.After(5 * bound):
+			}
+		}
+	}
+	if expired {
 		cancel()
 		<-done
 		if c.Discard {
@@ -196,11 +369,28 @@ func check(c Case, o *vf.Obs) error {
 	byG := map[int64][]ev{}
 	nexts := 0
 	for _, s := range scheds {
-		for _, r := range s.Log() {
-			if r.OK {
-				byG[r.G] = append(byG[r.G], ev{at: r.After, kind: "next", nx: r})
-				nexts++
+		log := s.Log()
+		// Nobody starts the schedule explicitly: it starts at the clock reading taken inside the first Next, which is
+		// not before the earliest instant a Next call was entered.
+		var started time.Time
+		var oks []int
+		for i, r := range log {
+			if started.IsZero() || r.Before.Before(started) {
+				started = r.Before
 			}
+			if r.OK {
+				oks = append(oks, i)
+			}
+		}
+		sort.SliceStable(oks, func(a, b int) bool { return log[oks[a]].Tx.Before(log[oks[b]].Tx) })
+		for k, i := range oks {
+			r := log[i]
+			e := ev{at: r.After, kind: "next", nx: r, rank: k, start: started}
+			if off, ok := pr.at(k, len(oks)); ok {
+				e.prof, e.hasProf = started.Add(off), true
+			}
+			byG[r.G] = append(byG[r.G], e)
+			nexts++
 		}
 	}
 	for _, sh := range guns.Shots {
@@ -214,16 +404,20 @@ func check(c Case, o *vf.Obs) error {
 		}
 	}
 	fired := len(guns.Shots)
-	if nexts != tokens {
+	if !pr.hasUnl && nexts != tokens {
 		return fmt.Errorf("%d tokens were handed out, the profile holds %d", nexts, tokens)
 	}
-	if fired+discards != tokens {
-		return fmt.Errorf("fired %d + discarded %d != tokens %d", fired, discards, tokens)
+	if pr.hasUnl && nexts < tokens {
+		return fmt.Errorf("%d tokens were handed out, the limited sections of the profile alone hold %d", nexts, tokens)
+	}
+	if fired+discards != nexts {
+		return fmt.Errorf("fired %d + discarded %d != tokens handed out %d", fired, discards, nexts)
 	}
 	if !c.Discard && discards > 0 {
 		return fmt.Errorf("%d requests reported as discarded although discard_overflow is off", discards)
 	}
 	late12, late23, late3, lateOver1, onTime, waitedAfterDiscard := 0, 0, 0, 0, 0, 0
+	vsProfile, longestWait := 0, time.Duration(0)
 	for g, evs := range byG {
 		sort.SliceStable(evs, func(i, j int) bool { return evs[i].at.Before(evs[j].at) })
 		for i := 0; i < len(evs); i++ {
@@ -239,7 +433,19 @@ func check(c Case, o *vf.Obs) error {
 			if out.kind == "shot" && B.Before(Tt) {
 				return fmt.Errorf("request fired %v BEFORE its scheduled time (scheduled t+%v, fired t+%v)", Tt.Sub(B), Tt.Sub(t0), B.Sub(t0))
 			}
+			if out.kind == "shot" && evs[i-1].hasProf {
+				// the token's own time is what the schedule object said; the time the user asked for is the profile's
+				vsProfile++
+				if P := evs[i-1].prof; B.Before(P) {
+					return fmt.Errorf("request fired %v BEFORE the time the load profile schedules it: request #%d of the schedule is due no earlier than t+%v "+
+						"(sections chained from the start of the schedule at t+%v), fired at t+%v; the token handed out for it said t+%v",
+						P.Sub(B), evs[i-1].rank+1, P.Sub(t0), evs[i-1].start.Sub(t0), B.Sub(t0), Tt.Sub(t0))
+				}
+			}
 			lateA, lateB := A.Sub(Tt), B.Sub(Tt)
+			if w := Tt.Sub(A); out.kind == "shot" && w > longestWait {
+				longestWait = w // handed out this long ahead of its time: the instance has to wait that long in one go
+			}
 			if out.kind == "shot" && lateB < time.Millisecond {
 				onTime++ // the instance was waiting for this token: fired within a millisecond after its time
 			}
@@ -280,9 +486,55 @@ func check(c Case, o *vf.Obs) error {
 	o.ClassIf(c.Gap, "burst_pause_steady_profile")
 	o.ClassIf(waitedAfterDiscard > 0, "token_waited_for_right_after_a_discard")
 	o.ClassIf(onTime >= 10, "shots_within_1ms_after_their_time")
-	if lateOver1 > 0 || (c.Dense && onTime >= 10) {
+	// a limited section that is followed, somewhere later, by one of unknown length (the number of tokens left is
+	// unknown while it lasts), and whose end some instance reaches idle: every response is shorter than the time
+	// between the last request before the section's end and that end
+	idleBeforeUnknown, unknownAfterLimited := false, false
+	if pr.hasUnl {
+		lastBusy := r0
+		for i, p := range parts {
+			if p.Leaf.Unknown() {
+				lastBusy = p.Finish
+				continue
+			}
+			if n := len(p.Tokens); n > 0 {
+				lastBusy = p.Tokens[n-1]
+			}
+			later := false
+			for _, q := range parts[i+1:] {
+				later = later || q.Leaf.Unknown()
+			}
+			if later && p.Finish.After(p.Start) {
+				unknownAfterLimited = true
+				idleBeforeUnknown = idleBeforeUnknown || p.Finish.Sub(lastBusy) > maxResp+5*time.Millisecond
+			}
+		}
+	}
+	o.ClassIf(pr.hasUnl, "unlimited_section_in_profile")
+	o.ClassIf(unknownAfterLimited, "limited_section_before_unlimited")
+	o.ClassIf(idleBeforeUnknown, "instance_idle_at_end_of_limited_section_before_unlimited")
+	o.ClassIf(pr.hasUnl && len(pr.back) > 0, "limited_section_after_unlimited")
+	o.ClassIf(pr.hasUnl && nexts > tokens, "unlimited_section_fired")
+	o.ClassIf(vsProfile > 0, "shots_compared_with_profile_time")
+	o.ClassIf(c.Long, "long_wait_profile")
+	o.ClassIf(longestWait >= 3*time.Second, "single_wait_ge_3s")
+	o.ClassIf(longestWait >= 5*time.Second, "single_wait_ge_5s")
+	o.ClassIf(longestWait >= 8*time.Second, "single_wait_ge_8s")
+	o.ClassIf(longestWait >= 12*time.Second, "single_wait_ge_12s")
+	switch {
+	case c.Long:
+		if longestWait >= 3*time.Second {
+			o.NonTrivial()
+		}
+	case c.UnlTl:
+		if idleBeforeUnknown && nexts > tokens && vsProfile > 0 {
+			o.NonTrivial()
+		}
+	case lateOver1 > 0 || (c.Dense && onTime >= 10):
 		o.NonTrivial()
 	}
+	o.Note("longest_single_wait_s", longestWait.Seconds())
+	o.Note("shots_compared_with_profile_time", vsProfile)
 	o.Note("fired_within_1ms_after_token_time", onTime)
 	o.Note("tokens", tokens)
 	o.Note("fired", fired)
@@ -301,4 +553,20 @@ func TestNoEarlyShotDense(t *testing.T) {
 func TestTiming(t *testing.T) {
 	r := vf.Start(t, "C04")
 	vf.Batch(r, r.Pick(48, 480), 48, genCase, check)
+}
+
+// TestProfileTime: "no request is fired before its scheduled time" where the scheduled time is the one the load
+// profile defines (sections follow each other), for profiles whose token count is unknown in advance: limited
+// sections followed by an unlimited one. The instance loop asks the schedule between requests whether it is
+// finished; that question must not move the timetable.
+func TestProfileTime(t *testing.T) {
+	r := vf.Start(t, "C04")
+	vf.Batch(r, r.Pick(24, 240), 24, genUnlimited, check)
+}
+
+// TestLongWaits: single waits of 4-11 s (thorough: up to 26 s) for one request: pauses between load steps, rates
+// below 0.25 rps, the start of a ramp from zero. All cases of a process run concurrently (they sleep).
+func TestLongWaits(t *testing.T) {
+	r := vf.Start(t, "C04")
+	vf.Batch(r, r.Pick(12, 40), 40, genLongWait(r.Pick(11000, 26000)), check)
 }
